@@ -85,7 +85,10 @@ theorem ms_startConnecting (w : World) : (startConnecting w).1.ms = w.ms := by
 
 theorem ms_mOut (s : String) (n : Nat) (o : Manager.Output) (w : World) : (mOut s n o w).1.ms = w.ms := by
   cases o <;> simp only [mOut]
-  · split <;> rfl
+  · refine ms_andThen ?_ ?_
+    · obtain ⟨t, e⟩ := cancelTimer_same Flags.abandon_checks_active w
+      rw [e]
+    · intro v; split <;> rfl
   · split
     · rfl
     · split <;> rfl
@@ -147,8 +150,11 @@ theorem msok_mInput (i : Manager.Input) (s : String) (n : Nat) (w : World) : MsO
 
 theorem msok_connectionMade (c : Nat) (w : World) : MsOk w (connectionMade c w).1 := by
   unfold connectionMade
-  refine msok_andThen (MsOk.trans (MsOk.of_eq ?_) (msok_mInput _ _ _ _)) ?_
-  · unfold startPingTimer; split <;> rfl
+  refine msok_andThen (MsOk.of_eq ?_) ?_
+  · obtain ⟨t, tt, e⟩ := startPingTimer_same w
+    rw [e]
+  intro u
+  refine msok_andThen (msok_mInput _ _ _ _) ?_
   · intro v
     unfold useConnection
     dsimp only
@@ -159,6 +165,11 @@ theorem msok_connectionMade (c : Nat) (w : World) : MsOk w (connectionMade c w).
 theorem msok_connectionLost (w : World) : MsOk w (connectionLost w).1 := by
   unfold connectionLost
   dsimp only
+  refine msok_andThen (MsOk.of_eq ?_) ?_
+  · obtain ⟨t, e⟩ := cancelTimer_same Flags.stop_using_checks_active
+      { w with tt := w.tt.map fun _ => TrafficTimer.State.no_connection }
+    rw [e]
+  intro v
   split
   · exact MsOk.of_eq rfl
   · split
